@@ -21,6 +21,9 @@ import Golib.FailClosed.ValueTotal
 import Golib.FailClosed.Tail
 import Golib.FailClosed.Findings
 import Golib.FailClosed.PackA
+import Golib.FailClosed.Stream
+import Golib.Step.Prefix
+import Golib.Step.ValueInst
 
 namespace C04
 open FailClosed Prim Value
@@ -164,6 +167,81 @@ theorem textPack_prefix_fails (q s : Bytes) (v : List (Nat × Int × Bytes)) (hs
     (h : A.run (textPackA true) (q ++ s) = some (v, [])) : A.run (textPackA true) q = none :=
   A.prefix_fails _ (tailFree_textPackA true) q s v hs h
 
+/-! ## steps and service records (C08's transcribed layouts): no assumption left
+
+    `step.ReadStep` / `service.ToObject` over the registered layouts is a program of the decoder
+    monad (`Step.readOneP`, proved equal to the reader C08 verifies), so the generic theorems
+    apply to it as they are. -/
+
+/-- a strict prefix of one registered step never decodes -/
+theorem step_prefix_fails (s : Step.Item) (h : s.ok Step.valueRT Step.stepTable) (q a : Bytes)
+    (ha : a ≠ []) (hq : q ++ a = s.bytes) : Step.readOne Step.stepTable q = none :=
+  Step.tagged_prefix_fails Step.valueRT Step.stepTable (by decide) s h q a ha hq
+
+/-- … nor of a service record -/
+theorem service_prefix_fails (s : Step.Item) (h : s.ok Step.valueRT Step.serviceTable) (q a : Bytes)
+    (ha : a ≠ []) (hq : q ++ a = s.bytes) : Step.readOne Step.serviceTable q = none :=
+  Step.tagged_prefix_fails Step.valueRT Step.serviceTable (by decide) s h q a ha hq
+
+/-- a truncated `ToBytesStep` stream read until the input is used up fails or yields a strict
+    prefix of the steps — never a fabricated step -/
+theorem steps_stream_prefix (ss : List Step.Item) (h : ∀ s ∈ ss, s.ok Step.valueRT Step.stepTable)
+    (q a : Bytes) (ha : a ≠ []) (hq : q ++ a = Step.toBytesStep ss) :
+    Step.readAll Step.stepTable q = none ∨
+      ∃ k, k < ss.length ∧ Step.readAll Step.stepTable q = some ((ss.take k).map Step.Item.expected) :=
+  Step.stream_prefix Step.valueRT Step.stepTable (by decide) ss h q a ha hq
+
+/-- reading a step allocates (through `ReadBytes`) exactly what it consumes, never more than the input -/
+theorem alloc_bounded_steps (bs : Bytes) :
+    A.cost (A.ofP (Step.readOneP Step.stepTable)) bs ≤ 1 * bs.length :=
+  (paid_ofP0 (c := 1) _ (Nat.le_refl 1)).bounded bs
+
+theorem step_reader_is_program (bs : Bytes) :
+    A.run (A.ofP (Step.readOneP Step.stepTable)) bs = Step.readOne Step.stepTable bs := by
+  rw [A.run_ofP]; exact Step.readOneP_run Step.stepTable (by decide) bs
+
+/-! ## the stream input path (`io.NewDataInputNet`): fragmentation-independence
+
+    A connection hands the bytes over in fragments of its own choosing (`Conn` = the fragments still
+    to come); `ReadBytes(n)` loops over `Read` until `n` bytes are there and panics when the
+    connection ends first (`readN`).  -/
+
+/-- decoding over ANY fragmentation is decoding the concatenation: same outcome, same value, and
+    what is left of the connection is what is left of the bytes -/
+theorem stream_fragmentation_independent (p : P α) (c : Conn) :
+    match runC p c with
+    | some (v, c') => P.run p c.bytes = some (v, c'.bytes)
+    | none => P.run p c.bytes = none := runC_eq p c
+
+theorem stream_same_for_same_bytes (p : P α) (c d : Conn) (h : c.bytes = d.bytes) :
+    (runC p c).map (fun x => (x.1, x.2.bytes)) = (runC p d).map (fun x => (x.1, x.2.bytes)) :=
+  runC_fragmentation_independent p c d h
+
+/-- a connection that ends before the end of a complete encoding makes the decoder fail,
+    whatever the fragments -/
+theorem stream_cut_fails (p : P α) (c : Conn) (s : Bytes) (v : α) (hs : s ≠ [])
+    (h : P.run p (c.bytes ++ s) = some (v, [])) : runC p c = none := stream_prefix_fails p c s v hs h
+
+/-- … and the complete encoding decodes over every fragmentation -/
+theorem stream_complete_decodes (p : P α) (c : Conn) (v : α) (h : P.run p c.bytes = some (v, [])) :
+    ∃ c', runC p c = some (v, c') ∧ c'.bytes = [] := stream_complete p c v h
+
+/-- instances: programs of primitive reads and registered steps over a connection -/
+theorem stream_program_cut_fails (ops : List Op) (c : Conn) (s : Bytes) (h : ∀ op ∈ ops, WFOp op)
+    (hs : s ≠ []) (hq : c.bytes ++ s = writeAll ops) : runC (readAll ops) c = none := by
+  apply stream_prefix_fails (readAll ops) c s ops hs
+  rw [hq]; simpa using Prim.program_roundtrip ops [] h
+
+theorem stream_step_cut_fails (st : Step.Item) (h : st.ok Step.valueRT Step.stepTable) (c : Conn)
+    (a : Bytes) (ha : a ≠ []) (hq : c.bytes ++ a = st.bytes) :
+    runC (Step.readOneP Step.stepTable) c = none := by
+  have h1 := Step.tagged_prefix_fails Step.valueRT Step.stepTable (by decide) st h c.bytes a ha hq
+  rw [← Step.readOneP_run Step.stepTable (by decide)] at h1
+  have h2 := runC_eq (Step.readOneP Step.stepTable) c
+  cases hc : runC (Step.readOneP Step.stepTable) c with
+  | none => rfl
+  | some x => obtain ⟨v, c'⟩ := x; rw [hc] at h2; simp only at h2; rw [h1] at h2; simp at h2
+
 /-! ## the code as found violates both halves (witnesses; the same inputs are replayed on the
     Go side by harness/c04) -/
 
@@ -200,6 +278,13 @@ theorem finding_D02_array :
   rw [d02_textArray_unguarded]; decide
 
 /-! ## non-vacuity -/
+
+/-- a long read from a connection that delivers 3 + 1 + 4 bytes, and from one cut after 5 bytes -/
+example : runC (rdI 8) [[0, 0, 0], [0], [0, 0, 1, 2]] = some (258, []) := by decide +kernel
+example : runC (rdI 8) [[0, 0, 0], [0, 0]] = none := by decide +kernel
+example : runC (readAll [.short 0, .blob []]) [[0], [7, 2, 9], [], [9, 5]] =
+    some ([.short 7, .blob [9, 9]], [[5]]) := by decide +kernel
+
 
 /-- a nested value: its encoding decodes completely, so the prefix theorems apply to it -/
 example : (Value.decode (encV (.list [.int 5, .text [104, 105], .map [([107], .ai [1, -2])]]))).map
